@@ -289,6 +289,7 @@ def variants(prog, opts, rng):
         dv = prog["decl"]["var"]
         out.append({"mode": "tweak", "sels": [{"focus": dv, "ctx": []}], "supply": 555})
         out.append({"mode": "ovprobe", "sels": [{"focus": dv, "ctx": []}], "supply": 556})
+        out.append({"mode": "ovprobe", "sels": [{"focus": dv, "ctx": []}], "supply": 566, "kspell": True})
         out.append({"mode": "tweak_cond", "sels": [{"focus": dv, "ctx": []}], "supply": 557})
         out.append({"mode": "tweak", "sels": [{"focus": dv, "ctx": []}], "supply": 560, "decline_inside": True})
         out.append({"mode": "total", "sels": [{"focus": dv, "ctx": [n for n in names if n != dv][:2]}]})
@@ -431,7 +432,11 @@ def _run_variant(runner, var, script, mod, fn, rec):
             p = probing(sel_text(runner.name, var["sels"][0]), env=env, overridable=True)
             seen = []          # what the pipeline of the overriding probe is handed (an event like any other)
             p.subscribe(lambda d: seen.append(sorted([k, rt2.enc(v)] for k, v in d.items())))
-            p.override(var["supply"])
+            if var.get("kspell"):
+                # the keyword spelling at the end of a derived pipeline
+                p.kfilter(lambda **kw: True).koverride(lambda **kw: var["supply"])
+            else:
+                p.override(var["supply"])
             with p:
                 rec["log"], rec["result"] = runner.call(mod, fn, script)
             rec["streams"] = [seen]
